@@ -86,22 +86,6 @@ func padNumericSegment(segment string) string {
 
 
 func incrementDecimal(val string) (string, bool) {
-	if len(val) == 8 {	// Could be a date
-		yr, mo, dy := val[0:4], val[4:6], val[6:]
-		if yr > "0000" && yr < "2100" && mo > "00" && mo < "13" && dy > "00" && dy < "32" {
-			// Do a very simpleminded date increment
-			dy, _ = incrementDecimal(dy)
-			if dy > "31" {
-				dy = "01"
-				mo, _ = incrementDecimal(mo)
-				if mo > "12" {
-					mo = "01"
-					yr, _ = incrementDecimal(yr)
-				}
-			}
-			return yr + mo + dy, false
-		}
-	}
 	slice := []byte(val)
 	for p := len(slice) - 1; p >= 0; p-- {
 		c := slice[p] + 1
